@@ -3,9 +3,9 @@ from __future__ import annotations
 
 from .common import *   # noqa: F401,F403
 
-LEAF = ['Leaf_special']      # translated leaf functions this property's model relies on (Tie/<name>.v)
+LEAF = ['Leaf_special', 'Leaf_note', 'Leaf_timed']      # translated leaf functions this property's model relies on (Tie/<name>.v)
 RULE = ("one instrument section per case: 0-8 star-power phrases ordered by start tick (adjacent, nested, overlapping, "
-        "zero-length, before/after all notes) and note ticks drawn from start-1/start/end-1/end of every phrase plus random ticks; "
+        "zero-length, before/after all notes) and note ticks drawn from start-1/start/end-1/end of every phrase plus random ticks, the notes unsustained or held for 1..2000 ticks (past phrase ends, over later notes); "
         "a case is non-trivial when it has >= 2 phrases and at least one note inside and one outside a phrase; distinct by (phrases, notes)")
 ASSUMPTIONS = ["ticks of notes and phrases are non-decreasing in file order (the property's 'ordered by start tick')",
                "the Gallina model of instrument.py/track.py is tied to the code by this correspondence only"]
@@ -62,9 +62,17 @@ def gen_case(rng):
     return ps, notes
 
 
-def build(ps, notes, rng=None):
+def gen_sus(rng, notes):
+    """Sustains: membership depends on the note's tick alone, however long this or an earlier note is held."""
+    if rng.random() < 0.55:
+        return [0] * len(notes)
+    return [rng.choice([0, 0, 1, 50, 300, 2000]) for _ in notes]
+
+
+def build(ps, notes, sus=None):
     lines = []
-    items = [(t, 0, "%d = S 2 %d" % (t, l)) for t, l in ps] + [(t, 1, "%d = N %d 0" % (t, i % 5)) for i, t in enumerate(notes)]
+    sus = sus or [0] * len(notes)
+    items = [(t, 0, "%d = S 2 %d" % (t, l)) for t, l in ps] + [(t, 1, "%d = N %d %d" % (t, i % 5, sus[i])) for i, t in enumerate(notes)]
     # file order: phrases keep their order; notes keep theirs; interleave by tick (stable)
     items.sort(key=lambda x: (x[0], x[1]))
     lines = [x[2] for x in items]
@@ -72,19 +80,19 @@ def build(ps, notes, rng=None):
     return text
 
 
-def make_case(ps, notes):
-    text = build(ps, notes)
+def make_case(ps, notes, sus=None):
+    text = build(ps, notes, sus)
     ch, exc, out = parse_case(text)
     inside = sum(1 for n in notes if any(t <= n < t + l for t, l in ps))
     return dict(
-        case=dict(phrases=[list(p) for p in ps], notes=notes, text=text),
+        case=dict(phrases=[list(p) for p in ps], notes=notes, sus=sus or [0] * len(notes), text=text),
         in_term="((true, %s), %s)" % (coq_list("(%s, %s)" % (coq_Z(t), coq_Z(l)) for t, l in ps), parse_in_term(text)),
         out_term=out,
         nontrivial=len(ps) >= 2 and 0 < inside < len(notes),
         tags=["phrases=%d" % min(len(ps), 5), "notes_inside" if inside else "no_note_inside",
-              "zero_length" if any(l == 0 for _, l in ps) else "no_zero_length",
+              "zero_length" if any(l == 0 for _, l in ps) else "no_zero_length", "sustained" if sus and any(sus) else "unsustained",
               "impl_error" if exc is not None else "impl_ok"],
-        signature="C05:" + key_of([ps, notes]),
+        signature="C05:" + key_of([ps, notes, sus or []]),
     )
 
 
@@ -101,18 +109,18 @@ def cases(ctx, n):
         ([(10, 100), (20, 10), (25, 0), (30, 200)], [9, 10, 29, 30, 109, 110, 229, 230]),
     ]
     for c in load_corpus("C05"):
-        fixed.append(([tuple(p) for p in c["phrases"]], c["notes"]))
-    for ps, notes in fixed:
-        out.append(make_case(ps, notes))
+        fixed.append(([tuple(p) for p in c["phrases"]], c["notes"], c.get("sus")))
+    for f in fixed:
+        out.append(make_case(*f))
     while len(out) < n:
         ps, notes = gen_case(rng)
-        out.append(make_case(ps, notes))
+        out.append(make_case(ps, notes, gen_sus(rng, notes)))
     return out
 
 
 def run(ctx, only=None):
     if only:
-        cs = [make_case([tuple(p) for p in c["phrases"]], c["notes"]) for c in only if c]
+        cs = [make_case([tuple(p) for p in c["phrases"]], c["notes"], c.get("sus")) for c in only if c]
     else:
         cs = cases(ctx, 240 if ctx["tier"] == "quick" else 4000)
     return run_cases("C05", cs, IN_TYPE, PARSE_OUT, VERDICT, SPEC)
